@@ -181,10 +181,14 @@ func (k Keeper) ProcessBridgeRequest(ctx context.Context, reqs goattypes.BridgeR
 	}
 
 	for _, v := range reqs.DepositTax {
-		param.MaxDepositTax = v.Max
-		if v.Rate < types.MaxTaxBP {
-			param.DepositTaxRate = v.Rate
+		// disregard the request if it leads to a parameter set which can't pass the validation(e.g. the genesis import)
+		updated := param
+		updated.DepositTaxRate, updated.MaxDepositTax = v.Rate, v.Max
+		if v.Rate >= types.MaxTaxBP || updated.Validate() != nil {
+			k.Logger().Info("disregard deposit tax request", "rate", v.Rate, "max", v.Max)
+			continue
 		}
+		param = updated
 	}
 
 	for _, v := range reqs.Confirmation {
